@@ -23,6 +23,8 @@ type opDef struct {
 	// later: after this operation, each of laterOps is additionally applied as
 	// a SEPARATE later operation (history + this + later) and checked in full
 	later bool
+	// leaf: the state this operation reaches is checked but not expanded
+	leaf bool
 }
 
 // laterOps follow an operation flagged `later`: what the rest of a session
@@ -245,8 +247,9 @@ func errorCallOps() []*opDef {
 		return c
 	}
 	follow := map[string]func() *node{
-		"ref-a":   func() *node { return nS("a") },
-		"set-a":   func() *node { return setq("a", nI(16)) },
+		"ref-a": func() *node { return nS("a") },
+		// the same value as the alphabet's (set 'a 2): no new states
+		"set-a":   func() *node { return setq("a", nI(2)) },
 		"defun-f": func() *node { return nCall("defun", nS("f"), empty, nS("a")) },
 		"call-f":  func() *node { return nCall("f") },
 	}
@@ -259,37 +262,41 @@ func errorCallOps() []*opDef {
 		ops = append(ops, &opDef{Name: name, Class: class, form: form, tier: tier, maxLenQ: lq, maxLenT: lt, later: later, prog: prog})
 	}
 
-	// --- named callees: a function h and a macro hm defined in P
+	// --- named callees: a function h / a macro hm defined in P by the same
+	// operation (a leaf operation: its table is checked in full, later
+	// operations are appended, but the states it reaches are not expanded, so
+	// h and hm do not multiply the state space)
 	type named struct {
-		P, k, kind string
-		tier       int
+		P, fn, k, kind string
+		tier           int
 	}
-	for _, d := range []named{{"p", "first", "error", 0}, {"q", "middle", "unbound", 1}} {
-		add("load:"+d.P+":defun-h:"+d.k+"-"+d.kind, "defun-failing-body",
-			nCall("load-string", nP(inPkg(d.P), nL(append([]*node{nS("defun"), nS("h"), empty}, body(d.k, d.kind, nS("a"))...)...))),
-			d.tier, 3, 3, false, false)
-	}
-	for _, d := range []named{{"p", "first", "error", 0}, {"q", "middle", "wrongtype", 1}} {
-		add("load:"+d.P+":defmacro-hm:"+d.k+"-"+d.kind, "defmacro-failing-body",
-			nCall("load-string", nP(inPkg(d.P), nL(append([]*node{nS("defmacro"), nS("hm"), empty}, body(d.k, d.kind, nQS("a"))...)...))),
-			d.tier, 3, 3, false, false)
-	}
-	for _, P := range []string{"p", "q"} {
-		tier := 0
-		if P == "q" {
-			tier = 1
+	defOf := func(d named) *node {
+		definer, last := "defun", nS("a")
+		if d.fn == "hm" {
+			definer, last = "defmacro", nQS("a")
 		}
-		for _, fn := range []string{"h", "hm"} {
-			for _, w := range wrappers {
-				add("errcall:"+P+":"+fn+":"+w, "error-in-body:named-"+fn+":"+w, wrap(w, nCall(P+":"+fn)), tier, 0, 0, true, w != "bare")
+		return nCall("load-string", nP(inPkg(d.P), nL(append([]*node{nS(definer), nS(d.fn), empty}, body(d.k, d.kind, last)...)...)))
+	}
+	for _, d := range []named{{"p", "h", "first", "error", 0}, {"p", "hm", "first", "error", 0},
+		{"q", "h", "middle", "unbound", 1}, {"q", "hm", "middle", "wrongtype", 1}, {"p", "h", "last", "wrongtype", 1}} {
+		lq, lt := 3, 4
+		if d.tier == 1 {
+			lt = 3
+		}
+		id := d.P + ":" + d.fn + ":" + d.k + ":" + d.kind
+		for _, w := range wrappers {
+			ops = append(ops, &opDef{Name: "errcall:named:" + id + ":" + w, Class: "error-in-body:named-" + d.fn + ":" + d.k + ":" + w,
+				form: nCall("progn", defOf(d), wrap(w, nCall(d.P+":"+d.fn))), tier: d.tier, maxLenQ: lq, maxLenT: lt, later: true, prog: w != "bare", leaf: true})
+		}
+		if d.tier == 0 {
+			w := "ignore-errors"
+			if d.fn == "hm" {
+				w = "handler-bind"
 			}
-		}
-	}
-	for i, fw := range [][2]string{{"h", "ignore-errors"}, {"hm", "handler-bind"}} {
-		_ = i
-		for _, f := range followNames {
-			add("errcall:p:"+fw[0]+":"+fw[1]+":then:"+f, "error-in-body:named-"+fw[0]+":"+fw[1]+":then-"+f,
-				nCall("progn", wrap(fw[1], nCall("p:"+fw[0])), follow[f]()), 0, 3, 4, false, true)
+			for _, f := range followNames {
+				ops = append(ops, &opDef{Name: "errcall:named:" + id + ":" + w + ":then:" + f, Class: "error-in-body:named-" + d.fn + ":" + d.k + ":" + w + ":then-" + f,
+					form: nCall("progn", defOf(d), wrap(w, nCall(d.P+":"+d.fn)), follow[f]()), maxLenQ: lq, maxLenT: lt, prog: true, leaf: true})
+			}
 		}
 	}
 
@@ -343,11 +350,10 @@ var coreOps = map[string]bool{
 	"export:a": true, "export:f": true, "use-package:p": true, "use-package:q": true,
 	"set:a=1": true, "set:a=2": true, "set:p:a=3": true, "set!:a=4": true,
 	"defun:f-reads-a": true, "defun:f-sets-a=5": true, "defmacro:m-expands-a": true,
-	"load:q:set-a=6": true, "load:p:nested-q:set-a": true, "load:p:lib": true,
-	"ref:a": true, "ref:p:a": true, "ref:q:a": true, "call:f": true, "call:p:f": true, "call:q:f": true,
+	"load:q:set-a=6": true, "load:p:lib": true,
+	"ref:a": true, "ref:p:a": true, "call:f": true, "call:p:f": true,
 	"call:m": true, "let-a:call:f": true,
-	"let-a:ref:user:a": true, "let-a:ref:p:a": true, "let-a:ref:q:a": true,
-	"flet-f:call:p:f": true, "call:p:g": true,
+	"let-a:ref:user:a": true, "let-a:ref:p:a": true,
 }
 
 var allOps = buildAlphabet()
